@@ -818,7 +818,7 @@ package core
 
 // A rejected add leaves the term index as it was (so a fact that stays stored stays findable).
 //@ funcval (*IndexedState).add.addHook
-//@   modifies allbut(F:core.Context.|F:core.IndexedState.|F:core.TermIndex.|MD:string:map[string]struct{}|MV:string:map[string]struct{}|ML:string:map[string]struct{}|MD:string:struct{}|MV:string:struct{}|ML:string:struct{}|LK:)
+//@   modifies allbut(F:core.Context.|F:core.IndexedState.|F:core.TermIndex.|MD:string:map[string]struct{}|MV:string:map[string]struct{}|ML:string:map[string]struct{}|MD:string:struct{}|MV:string:struct{}|ML:string:struct{}|LK:|MD:string:map[string]interface{}|MV:string:map[string]interface{}|ML:string:map[string]interface{}|MD:string:interface{}|MV:string:interface{}|ML:string:interface{})
 //@ func (*IndexedState).add
 //@   ensures[C02.ix_rejected_add_keeps_index] result1 != nil ==> forall(t, string, forall(j, string, old(hasEntry(s.FactIndex, t, j)) ==> hasEntry(s.FactIndex, t, j)))
 //@ ghost addRejected bool gate
@@ -854,6 +854,7 @@ package core
 //@ func (*IndexedState).add
 //@   assume-entry unindexedId == "?none"
 //@   assert[C01.replace_unindexes_the_stored_rule] at "s.IdToFact[id]": storesRule(s, id) ==> unindexedId == id
+//@   loop 1: invariant[C01.add_index_loop_keeps_the_stored_fact] storesRule(s, id) ==> unindexedId == id
 //@   assert[C01.replace_unindexes_stored_pattern]  at "s.unindexRule(ctx, id, oldRule)": storesRule(s, id) && oldRule == storedRule(s, id)
 //@ func (*IndexedState).rem
 //@   assume-entry unindexedId == "?none"
